@@ -28,12 +28,29 @@ def load_contracts():
 def _worker(arg):
     full, tier, timeout_ms, cfilter = arg
     from pyvc import harness
+    import signal
 
+    budget = int(os.environ.get("PYVC_TASK_BUDGET_S", "900" if tier == "quick" else "3600"))
+
+    def _over(signum, frame):
+        from pyvc.values import Unsupported
+        raise Unsupported("task exceeded its time budget of %d s (path explosion or a solver call that does not return)" % budget)
+    try:
+        signal.signal(signal.SIGALRM, _over)
+        signal.alarm(budget)
+    except (ValueError, AttributeError):
+        pass
     try:
         return harness.run_task(full, tier, timeout_ms, cfilter)
     except BaseException as e:  # noqa
-        return {"task": full, "status": "error", "detail": repr(e), "results": [], "functions": {},
+        from pyvc.values import Unsupported
+        return {"task": full, "status": "unsupported" if isinstance(e, Unsupported) else "error", "detail": repr(e), "results": [], "functions": {},
                 "lib_used": [], "trusted": [], "samples": [], "seconds": 0, "prop": full.split("/")[0]}
+    finally:
+        try:
+            signal.alarm(0)
+        except (ValueError, AttributeError):
+            pass
 
 
 from pyvc.replayrun import run_replay  # noqa: E402
@@ -199,6 +216,39 @@ def main(argv=None):
                                    "replay": sr.get("replay"), "kind": "bounded-standin", "confirmed": sr.get("confirmed", True)})
             elif sr.get("status") == "error":
                 broken.append("stand-in %s: %s" % (sr["name"], sr.get("detail")))
+
+    # tasks whose changed body left the deductive engine's reach: a native bounded stand-in that exercises the same function
+    # may stand in (labelled; never counted as discharged); stand-ins of dependency properties are run on demand
+    unsupported_tasks = [o for o in outs if o["status"] == "unsupported"]
+    if unsupported_tasks and not a.only:
+        ok_names = {sr["name"] for sr in standin_reports if sr.get("status") == "ok"}
+        ran_names = {sr["name"] for sr in standin_reports}
+        for o in unsupported_tasks:
+            tname = o["task"]
+            cands = standins.covering(tname)
+            for p_, n_ in cands:
+                if n_ not in ran_names:
+                    try:
+                        extra = standins.run_for(p_, seed, tier, only={n_})
+                    except Exception as e:
+                        broken.append("stand-in harness: %r" % (e,))
+                        extra = []
+                    for sr in extra:
+                        ran_names.add(sr["name"])
+                        standin_reports.append(sr)
+                        if sr.get("status") == "ok":
+                            ok_names.add(sr["name"])
+                        elif sr.get("status") == "violation":
+                            violations.append({"obligation": "%s/standin/%s" % (a.prop, sr["name"]), "status": "failed",
+                                               "replay": sr.get("replay"), "kind": "bounded-standin", "confirmed": sr.get("confirmed", True)})
+                        elif sr.get("status") == "error":
+                            broken.append("stand-in %s: %s" % (sr["name"], sr.get("detail")))
+            if cands and all(n_ in ok_names for _, n_ in cands):
+                before = len(undecided)
+                undecided[:] = [u for u in undecided if not u.startswith(tname + ":")]
+                if len(undecided) != before:
+                    fallback_notes.append("%s: outside the deductive engine's reach (%s); bounded stand-in %s stands in" % (
+                        tname, str(o.get("detail"))[:160], ", ".join(n_ for _, n_ in cands)))
 
     # expected obligation counts (vacuity guard (a))
     try:
